@@ -390,6 +390,7 @@ func checkC04(p *Prog, res *Result, tier string) {
 	res.rule("C04-R2", "in the event sink every path with a non-zero revision reaches the slot store (or aborts)", 1)
 	res.rule("C04-R3", "in the sequencer every path from a consumed slot to the next slot load passes through TSO.Commit of that slot's revision and through the store that clears the slot", 2)
 	res.rule("C04-R4", "at every sink call the revision comes from an allocator call that already returned, and valid is exactly (err == nil) for the error of that same call", 4)
+	res.rule("C04-R7", "the revision reads are served at never moves backwards: the committed counter is written only by Init and by a guarded raise in Commit (C02-R1) - a late value (a follower's sync overtaken by the node's own start as leader) cannot push it below acknowledged writes", 2)
 	res.rule("C04-R6", "neither the sequencer nor the hub it feeds can block itself: no lock is acquired while the same goroutine holds it (C19-R5)", 1)
 	res.rule("C04-R5", "TSO.Commit / Backend.SetCurrentRevision are called only from the sequencer, the leader-start callback, the follower revision sync and the etcd shim pass-through", 3)
 
@@ -710,6 +711,16 @@ func checkC04(p *Prog, res *Result, tier string) {
 	checkSelfDeadlock(p, p.lockContext(), res, "C04-R6")
 	// .. nor can a request leave a lock of that pipeline (event cache, hub) held behind (C19-R5, pairing)
 	checkLockPairing(p, res, "C04-R6")
+	// R7: the revision reads are served at only moves forward (C02-R1, committed counter)
+	{
+		sub2 := newResult("C02")
+		checkTSOCounters(p, r, sub2, "C02-R1")
+		for _, o := range sub2.Obls {
+			if strings.Contains(o.Construct, "ommitted") {
+				res.add("C04-R7", o.Rule+" "+o.Construct, o.Status, o.Pos, o.Detail)
+			}
+		}
+	}
 
 }
 
